@@ -3,7 +3,7 @@ Driver.Popen — line protocol over Model.Popen for tools/props/c17.py.
 
   enum <variant> <cfg> <rot> <delays> <max>   ->  ok <total> <sched>|<sched>|...      (at most <max> schedules listed)
   run  <variant> <cfg> <labels>               ->  ok <E0>;<E1>;...;<En> # <final state>   |  stuck <index>
-  witness <name>                              ->  ok <variant> <cfg> <labels>            (the schedules of the `_cex` theorems)
+  witness <name> <variant>                    ->  ok <variant> <cfg> <labels> | none     (the schedules of the `_cex` theorems)
 
   variant : three characters 0/1 = submitLocked cancelFlag joinFixed
   cfg     : <job>.<job>...:<waitflags>     job = [Tt][Ii][Ff][sukg]  (timeout, ignores SIGTERM, Popen fails, answer)
@@ -95,7 +95,7 @@ def showExn : Exn → String
 def showShPc : ShPc → String
   | .start => "start" | .acq => "acq" | .snapT => "snapT" | .poolWait => "poolWait" | .rel => "rel"
   | .jSnap => "jSnap" | .jRes => "jRes" | .jWait => "jWait" | .jAcq => "jAcq" | .jSnapL => "jSnapL"
-  | .jRel => "jRel" | .jWaitAll => "jWaitAll" | .ret => "ret" | .raised => "raised"
+  | .jRel => "jRel" | .jWaitAll => "jWaitAll" | .ret => "ret" | .jret => "ret" | .raised => "raised"
 
 def showCPc : CPc → String
   | .absent => "absent" | .begin => "begin" | .mark => "mark" | .poll => "poll" | .term => "term"
@@ -164,10 +164,13 @@ def handle (line : String) : String :=
       | some labels => runTrace v c init labels 0 []
       | none => "bad-labels"
     | _, _ => "bad-args"
-  | ["witness", name] =>
-    match witnesses.find? (·.1 == name) with
-    | some (_, v, c, ls) => s!"ok {showVariant v} {showCfg c} {showSched ls}"
-    | none => "bad-witness"
+  | ["witness", name, v] =>
+    match parseVariant v with
+    | some v =>
+      match witness name v with
+      | some (c, ls) => s!"ok {showVariant v} {showCfg c} {showSched ls}"
+      | none => "none"
+    | none => "bad-args"
   | _ => "bad-op"
 
 partial def loop (h : IO.FS.Stream) (out : IO.FS.Stream) : IO Unit := do
